@@ -243,6 +243,10 @@ def make_table(name, cols):
     """A brand-new dsl.Table (``class <name>(dsl.Schema)`` with the given fields), never cached."""
     dsl = _dsl()
     fields = {c: dsl.Field(_kinds()[k]()) for c, k in cols}
+    if ord(name[0]) % 2:
+        # declared like a class statement nested in a catalog class / a function: python puts the qualified name into the
+        # class namespace (schemas are declared at module level, in catalog classes and inside functions alike)
+        fields['__qualname__'] = f'Catalog.{name}'
     return types.new_class(name, (dsl.Schema,), exec_body=lambda ns: ns.update(fields))
 
 
